@@ -1626,8 +1626,12 @@ impl<'comments> Formatter<'comments> {
 
         docs.push(self.operator_side(first, 5, first_precedence));
 
+        let mut has_comments = false;
+
         for expr in expressions.iter().skip(1) {
-            let comments = self.pop_comments(expr.location().start);
+            let comments = self
+                .pop_comments(expr.location().start)
+                .collect::<Vec<_>>();
 
             let doc = match expr {
                 UntypedExpr::Fn {
@@ -1639,7 +1643,18 @@ impl<'comments> Formatter<'comments> {
                 _ => self.wrap_expr(expr),
             };
 
-            let space = if one_liner { break_("", " ") } else { line() };
+            // A comment in front of a step always ends up on a line of its own, so the step
+            // cannot stay on the line of the previous one (formatting twice must not differ
+            // from formatting once).
+            let is_commented = comments.iter().any(Option::is_some);
+
+            has_comments |= is_commented;
+
+            let space = if one_liner && !is_commented {
+                break_("", " ")
+            } else {
+                line()
+            };
 
             let pipe = space
                 .append(commented("|> ".to_doc(), comments))
@@ -1654,7 +1669,7 @@ impl<'comments> Formatter<'comments> {
             docs.push(expr);
         }
 
-        if one_liner {
+        if one_liner && !has_comments {
             docs.to_doc().group()
         } else {
             docs.to_doc().force_break()
